@@ -87,6 +87,7 @@ type Env struct {
 	mu           sync.Mutex
 	Events       []Event
 	AttestReturn func(d *attester.Duty) []*phase0.Attestation // what the fake attester returns
+	AttestGate  chan struct{}   // when set, the fake attester blocks on it after recording the call
 	SyncMissing map[uint64]bool // validators for which the account manager has no account (sync committee lookups by index)
 	inflight     atomic.Int64
 	activity     atomic.Int64
@@ -283,6 +284,12 @@ func (f fakeAttester) Attest(_ context.Context, d *attester.Duty) ([]*phase0.Att
 	tp := d.Tuples()
 	sort.Strings(tp)
 	f.e.rec(Event{Kind: "attest", Slot: uint64(d.Slot()), Validators: vs, Tuples: tp})
+	f.e.mu.Lock()
+	gate := f.e.AttestGate
+	f.e.mu.Unlock()
+	if gate != nil {
+		<-gate
+	}
 	if f.e.AttestReturn != nil {
 		return f.e.AttestReturn(d), nil
 	}
@@ -464,6 +471,25 @@ func (e *Env) Settle() {
 	for i := 0; i < 20000 && stable < 12; i++ {
 		fp := e.fingerprint()
 		if fp == last && e.Duties.inflight.Load() == 0 && e.inflight.Load() == 0 && len(e.Sched.Running()) == 0 {
+			stable++
+		} else {
+			stable = 0
+			last = fp
+		}
+		time.Sleep(250 * time.Microsecond)
+	}
+}
+
+// SetAttestGate installs (or with nil removes) the gate of the fake attester.
+func (e *Env) SetAttestGate(g chan struct{}) { e.mu.Lock(); e.AttestGate = g; e.mu.Unlock() }
+
+// SettleBusy waits until nothing observable has changed for a while, tolerating calls that are blocked in flight.
+func (e *Env) SettleBusy() {
+	last := ""
+	stable := 0
+	for i := 0; i < 8000 && stable < 12; i++ {
+		fp := e.fingerprint()
+		if fp == last {
 			stable++
 		} else {
 			stable = 0
